@@ -158,7 +158,16 @@ class Rewriter:
             bo = mm.end() - 1
             bc = match_close(m, bo)
             attr = re.sub(r"\s+", " ", self.t[mm.start():bc + 1])
-            if re.match(r"#\[(pin|allow|cfg_attr|inline|must_use|error|from|source|doc|derive|non_exhaustive|pin_project|pinned_drop|track_caller)\b", attr):
+            # R16 (opt-in per directive, `:: cfg_on=tls`): `#[cfg(feature = "F")]` on a match arm / enum variant /
+            # field with F in the directive's list -> the attribute is dropped, the guarded item KEPT.  The verified
+            # text is that of a build with F enabled (the pinned replay build: default + mocks,tls,tls-ring,sni).
+            # Assumed for builds without F: the variant and its arm disappear together, every other arm is the
+            # same text, so per-arm postconditions proved here cover them.  Any other #[cfg(..)] is still refused.
+            mcf = re.match(r'#\[cfg\(feature = "([A-Za-z0-9_-]+)"\)\]$', attr)
+            r16 = bool(mcf and mcf.group(1) in getattr(self, "cfg_on", ()))
+            if r16:
+                self.note("R16")
+            if r16 or re.match(r"#\[(pin|allow|cfg_attr|inline|must_use|error|from|source|doc|derive|non_exhaustive|pin_project|pinned_drop|track_caller)\b", attr):
                 e = bc + 1
                 # remove following whitespace up to and including one newline if attr is alone on the line
                 ls = self.t.rfind("\n", 0, mm.start()) + 1
@@ -236,6 +245,7 @@ class Rewriter:
         n += k
         t, k = re.subn(r"\bself\s*:\s*(?:std::pin::)?Pin<&mut Self>", "&mut self", t)
         n += k
+        self.pinned_self = n > 0  # the receiver was `self: Pin<&mut Self>` (used by R6s)
         # Pin<&mut T> / Pin<&'a mut T> in other positions
         while True:
             mm = re.search(r"(?:std::pin::)?Pin<(&(?:'[a-z_]+\s+)?mut\s+)", t)
@@ -325,6 +335,9 @@ class Rewriter:
                 t, k2 = re.subn(r"\b%s::" % re.escape(pown), enum + "::", t)
                 nr += k2
         self.note("R6r", nr)
+        return self.r6s(t)
+
+    def r6s(self, t):
         t, k = re.subn(r"\bself\.as_mut\(\)(?=\s*\.(?!project\b|project_replace\b|project_ref\b|set\b)[A-Za-z_][A-Za-z0-9_]*\s*\()", "(&mut *self)", t)
         self.note("R6s", k)
         return t
@@ -338,6 +351,8 @@ class Rewriter:
         t, k = re.subn(r"(?m)^[ \t]*let\s+(?:mut\s+)?this\s*=\s*self\.project\(\)\s*;\s*\n", "", t)
         n += k
         if k == 0 and not re.search(r"self\.project\(\)", t) and not re.search(r"self\.as_mut\(\)\s*\.(?:project|set)\(", t):
+            if getattr(self, "pinned_self", False) and getattr(self, "proj_own", None) is not None:
+                t = self.r6s(t)  # fn of a unit built after R6s existed (emit_fn sets proj_own); older paths unchanged
             self.t = t
             return
         t, k = re.subn(r"(?m)^[ \t]*let\s+(?:mut\s+)?this\s*=\s*self\.as_mut\(\)\.project\(\)\s*;\s*\n", "", t)
@@ -413,6 +428,10 @@ class Rewriter:
     # R13 ------------------------------------------------------------
     def r13_ctor_as_fn(self):
         self.t, n = re.subn(r"\.(map|map_err|and_then)\((Err|Ok|Some)\)", r".\1(|e| \2(e))", self.t)
+        # R13 (additive): a tuple-variant constructor given by path, `.map_err(ConnectionError::Protocol)`
+        # (every path segment CamelCase, so fn items such as `ServerError::ready` / `Into::into` are not touched)
+        self.t, k = re.subn(r"\.(map|map_err|map_ok|and_then)\(((?:[A-Z][A-Za-z0-9]*::)+[A-Z][A-Za-z0-9]*)\)", r".\1(|e| \2(e))", self.t)
+        n += k
         self.note("R13", n)
 
     def common(self):
@@ -425,7 +444,7 @@ class Rewriter:
         self.r12_phantom_fn()
         self.r13_ctor_as_fn()
         self.r14_extern_root()
-        if getattr(self, "matchrw", ""):  # opt-in (`:: matchrw=orsplit,guardelse`): R16 / R17, see rewrites_match.py
+        if getattr(self, "matchrw", ""):  # opt-in (`:: matchrw=orsplit,guardelse,ready`): R16 / R17 / R18, see rewrites_match.py
             import rewrites_match
             rewrites_match.apply(self, self.matchrw, Unsupported)
         return self.t
@@ -975,11 +994,12 @@ def split_top(s: str):
 def emit_plain(u: Unit, kind, fpath, name, opts):
     src = source(fpath)
     lo, hi = mod_range(src, opts.get("mod", ""))
-    it = src.find_plain(kind, name, lo, hi)
+    it = src.find_plain(kind, name, lo, hi, pick=int(opts["pick"])) if "pick" in opts else src.find_plain(kind, name, lo, hi)
     text = src.text(it.start, it.end)
     what = "%s %s (%s)" % (kind, name, fpath)
     attrs = leading_attrs(src.src, src.m, it.start)
     rw = Rewriter(text, what)
+    rw.cfg_on = set(x.strip() for x in opts.get("cfg_on", "").split(",") if x.strip())  # R16
     t = rw.common()
     pre = ""
     if kind in ("struct", "enum"):
@@ -1075,6 +1095,7 @@ def emit_fn(u: Unit, fpath, impl_pat, name, spec: FnSpec, reach: bool, mutate):
     rw.unpinned = set(x.strip() for x in spec.opts.get("unpinned", "").split(",") if x.strip())
     rw.proj_enums = proj_types_of(src)
     rw.proj_own = proj_own_types_of(src)
+    rw.cfg_on = set(x.strip() for x in spec.opts.get("cfg_on", "").split(",") if x.strip())  # R16
     rw.boxpin = spec.opts.get("boxpin") == "1"
     rw.matchrw = spec.opts.get("matchrw", "")
     try:
